@@ -6,7 +6,10 @@
 set -u
 NAME=$1; WT=$2; shift 2
 export GOFLAGS=-mod=mod GOPROXY=off GOSUMDB=off GOTOOLCHAIN=local
-V=/verif; OUT=$V/seeded/$NAME; mkdir -p $OUT
+# SEED_REPO / SEED_VERIF: run against a scratch worktree and a scratch copy of /verif
+# (whose harness/go.mod points at that worktree) instead of /repo and /verif
+R=${SEED_REPO:-/repo}; V=${SEED_VERIF:-/verif}; OUT=/verif/seeded/$NAME; mkdir -p $OUT
+[ "$R" != /repo ] && export XV_REPO=$R
 cp $WT/seeded.patch $OUT/patch.diff || exit 2
 DEMO=$(cd $WT && git status --porcelain | grep '^??' | grep '_test.go' | awk '{print $2}' | head -1)
 cp $WT/$DEMO $OUT/$(basename $DEMO)
@@ -25,7 +28,7 @@ DW=$(grep -c -E '^(FAIL|--- FAIL)' $OUT/demo_with_patch.txt)
 DWO=$(grep -c -E '^(FAIL|--- FAIL)' $OUT/demo_without_patch.txt)
 echo "suite FAIL lines with patch: $SUITE; demo fails with patch: $DW; demo fails without: $DWO"
 # run the checks against /repo with the patch
-git -C /repo apply $OUT/patch.diff || exit 2
+git -C $R apply $OUT/patch.diff || exit 2
 RES=""
 for P in "$@"; do
   ( cd $V && VERIF_OUT_DIR=/tmp/seedrun.$$ ./check $P quick > $OUT/check_$P.txt 2>&1; echo "exit=$?" >> $OUT/check_$P.txt )
@@ -33,6 +36,6 @@ for P in "$@"; do
   RES="$RES $P:$E"
   grep -m2 -E '^(VIOLATION|-- )' $OUT/check_$P.txt | cut -c1-300
 done
-git -C /repo checkout -- . ; git -C /repo status --short | head -3
+git -C $R checkout -- . ; git -C $R status --short | head -3
 rm -rf /tmp/seedrun.$$
 echo "RESULT $NAME:$RES"
